@@ -205,6 +205,19 @@ def run(rep, work, tier, seed, props, replay=None):
             rep.violation({"kind": "correspondence Model/Scopes.v (run) <-> mygrad ContextTracker no longer holds",
                            "broken": "correspondence C15: Scopes.run vs implementation trace", "program": progs[i],
                            "impl": results[i], "n_disagreements": len(bad)}, no_input=True)
+    # every operation of the catalogue, tracked vs inside no_autodiff, with uniform and mixed operand precisions: same values, same dtype, nothing recorded
+    ut_tasks, ut_res, ut_bad = [], [], 0
+    if replay is None or "catalog_index" in (replay or {}):
+        from graphhist import catalogue_sweep
+        ut_tasks, ut_res = catalogue_sweep("untracked", ([4, 0, 1, 2] if tier == "thorough" else [4, 1]) if replay is None else [replay.get("mix", 4)], seed, "mix", replay)
+        shown = set()
+        for t, r in zip(ut_tasks, ut_res):
+            for m in r.get("msgs", []):
+                ut_bad += 1
+                key = r["label"].split("(")[0].split(" ")[0]
+                if key not in shown and len(shown) < 6:
+                    shown.add(key)
+                    rep.violation({"kind": "operation sweep: %s -- %s" % (r["label"], m), "catalog_index": t["index"], "mix": t["mix"], "seed": t["seed"]})
     if not props["ok"]:
         rep.violation({"kind": "proof obligations of Props/C15.v no longer check", "broken": "Props/C15.v", "log": props["log"][-1500:]},
                       no_input=not oracle_bad)
@@ -216,7 +229,8 @@ def run(rep, work, tier, seed, props, replay=None):
         d = depth_of(p)
         hist[d] = hist.get(d, 0) + 1
     rep.coverage.update({
-        "evaluations": len(progs),
+        "evaluations": len(progs) + len(ut_res),
+        "operation_untracked_sweep": {"entries_x_mixes": len(ut_res), "messages": ut_bad},
         "distinct_nontrivial": len(nt),
         "distinct": len(canon),
         "rule": "scope programs over {with/decorated-call x 3 managers, try, raise, seq, turn_on/off, obs}: all programs of <= %d nodes "
